@@ -170,6 +170,8 @@ JudgeRec(r, bd, popped) ==
    \cup Chk("c08.castled", \A c \in 0..1 : (r.castled[c+1] = 1) = B!HasCastled(bd, c))
    \cup Chk("c08.lastmove", MetaOf(r.last) = B!LastMove(bd) /\ MetaOf(r.last2) = B!SecondToLastMove(bd))
    \cup Chk("c08.moved", SeqToSet(r.moved1) = Moved(bd, 1) /\ SeqToSet(r.moved2) = Moved(bd, 2) /\ SeqToSet(r.movedAll) = Moved(bd, 100000))
+   \* the number of times the board says it has seen its current position (String(); -1 = not reported)
+   \cup Chk("c08.repetition-count", r.reps = -1 \/ r.reps = B!Occurrences(bd))
    \cup (IF popped THEN Chk("c08.pop-not-drawn", ~IsDrawn(r)) ELSE {})
    ELSE {})
   \cup
